@@ -132,6 +132,19 @@ CLAIMED.update({
     },
 })
 
+CLAIMED.update({
+    "C10": {
+        "text": "Structural half of the BCF typed encoding: value-range and reserved-code constants vs BCFv2.2 §6.3.3 (evaluated), every "
+                "`as i8`/`as i16` in the encoder proven by the interval domain to lie inside [MIN_VALUE, MAX_VALUE] (reserved codes excluded), "
+                "width dispatch compares against exactly those constants, dec∘enc = id for the type-descriptor codes against both decoders, "
+                "explicit panics in the encoder closure vs a triaged table, string-map lookups are error exits. Record equality and "
+                "per-sample padding are not decided.",
+        "note": "one genuine defect (encoder todo!() on a missing INFO value) was repaired (fix: d137c9d)",
+        "technique": "static analysis: interval domain with dominating guards over MIR, evaluated constants, HIR match-table agreement, panic inventory",
+        "design_ref": "§5 C10",
+    },
+})
+
 NOT_APPLICABLE = {
     "C08": "every clause is numeric (rANS/arith/fqzcomp state arithmetic, ITF8/LTF8 bit arithmetic): correct and off-by-one "
            "implementations have the same code shape, so no sound static rule short of a solver/proof decides it; the "
